@@ -72,7 +72,9 @@ class LimitMonitor(hist.Monitor):
         # 2. a volume violation raised inside the operation reaches the caller unchanged
         inner = [e for e in out.events if e.get("exc") is not None and isinstance(e["exc"], VolumeViolationException)]
         if inner:
-            ctx.check("violation_propagates_to_caller", out.exc is inner[-1]["exc"], det)
+            # the caller sees a volume violation of the same class (the very same object in the current code;
+            # a re-raised copy would be just as good)
+            ctx.check("violation_propagates_to_caller", type(out.exc) is type(inner[-1]["exc"]), det)
         # 3. operation-level prediction for single-labware operations (independent of the hook:
         #    it also covers paths that bypass Labware.add/remove)
         if k in ("add", "remove", "aspirate", "dispense", "evo_aspirate", "evo_dispense"):
